@@ -87,6 +87,14 @@ MUTANTS = {
     'fiq_bank_lost_r8_r12': (R, "        return self.r_bank_select(mode, usr, fiq, usr, usr, usr, usr, usr, usr)", "        return self.r_bank_select(mode, usr, usr, usr, usr, usr, usr, usr, usr)", ['C10']),
     'hyp_has_own_lr': (R, "                                      RName.LRund, RName.LRmon, RName.LRusr)", "                                      RName.LRund, RName.LRmon, RName.LRsvc)", ['C10']),
     'spsr_mon_aliases_svc': (R, "            elif self.cpsr.m == 0b10110:\n                self.spsr_mon = value", "            elif self.cpsr.m == 0b10110:\n                self.spsr_svc = value", ['C10', 'C11']),
+    'msr_i_bit_unprivileged': (R, "        if bit_at(bytemask, 0):\n            if privileged:\n                self.cpsr.value = set_bit_at(self.cpsr.value, 7, bit_at(value, 7))",
+                               "        if bit_at(bytemask, 0):\n            if True:\n                self.cpsr.value = set_bit_at(self.cpsr.value, 7, bit_at(value, 7))", ['C19', 'C12']),
+    'srs_allowed_in_user': (OPS + 'srs_arm.py', "            elif processor.registers.current_mode_is_user_or_system():\n                print('unpredictable')\n            elif self.mode == 0b11010:",
+                            "            elif self.mode == 0b11010:", ['C19']),
+    'ldrt_checks_as_privileged': (V, "    def mem_u_unpriv_get(self, address, size):\n        return self.mem_u_with_priv_get(address, size, False)",
+                                  "    def mem_u_unpriv_get(self, address, size):\n        return self.mem_u_with_priv_get(address, size, self.registers.current_mode_is_not_user())", ['C19']),
+    'cps_mode_change_in_user': (OPS + 'cps_arm.py', "        if processor.registers.current_mode_is_not_user():\n            cpsr_val = processor.registers.cpsr.value",
+                                "        if True:\n            cpsr_val = processor.registers.cpsr.value\n            if self.change_mode and not processor.registers.current_mode_is_not_user():\n                processor.registers.cpsr.m = self.mode if not processor.registers.bad_mode(self.mode) else processor.registers.cpsr.m", ['C19']),
     'keyerror_for_ap_100': (V, "        elif perms.ap == 0b100:\n            print('unpredictable')", "        elif perms.ap == 0b100:\n            abort = {}[perms.ap]", ['C18']),
     'stale_opcode_len_reuse': (V, "        elif self.registers.current_instr_set() == InstrSet.THUMB:\n            self.opcode_len = 2\n            self.opcode = self.mem_a_get(self.registers.pc_store_value(), self.opcode_len)",
                                "        elif self.registers.current_instr_set() == InstrSet.THUMB:\n            self.opcode_len = 2 if self.opcode_len != 1 else 4\n            self.opcode = self.mem_a_get(self.registers.pc_store_value(), 2)", []),
